@@ -225,6 +225,7 @@ func c19UnusedGen(c *engine.C) engine.Case {
 	}
 	mask := c.Choose(8, "imported-groups")
 	twoFiles := c.Bool("imports-split-over-two-files")
+	importForm := c.Choose(3, "import-form")
 	return func() engine.Result {
 		var imported []string
 		for i, g := range c19Groups {
@@ -235,8 +236,15 @@ func c19UnusedGen(c *engine.C) engine.Case {
 		mk := func(name string, groups []string) string {
 			var sb strings.Builder
 			sb.WriteString("package my.app;\n\nimport java.util.List;\n")
-			for _, g := range groups {
-				sb.WriteString("import " + g + ".api.Thing" + strings.ToUpper(g[:1]) + ";\n")
+			for gi, g := range groups {
+				switch (importForm + gi) % 3 {
+				case 0:
+					sb.WriteString("import " + g + ".api.Thing" + strings.ToUpper(g[:1]) + ";\n")
+				case 1:
+					sb.WriteString("import " + g + ".*;\n") // on-demand import of exactly the group package
+				case 2:
+					sb.WriteString("import static " + g + ".Consts.*;\n")
+				}
 			}
 			sb.WriteString("\npublic class " + name + " {\n    private List<String> items;\n}\n")
 			return sb.String()
